@@ -707,6 +707,24 @@ func c11Forced(r *Run, which string) error {
 		g.emit("EFetch " + sim.CoqN(g.num(ak)))
 		g.emit("ERelease")
 		g.quiesce(0, nil, "failed fetch recorded")
+		{
+			// the failed fetch of the ancestor was the LAST item of that busy period to finish: the
+			// head that was fetched meanwhile must have been handed over and merged all the same,
+			// while the ancestor is still unreachable
+			obMid, valsMid, stMid := g.observe()
+			seen := false
+			for _, v := range valsMid {
+				seen = seen || v == hk
+			}
+			if !seen {
+				r.AddDirect("c11:fetched-head-not-merged-after-failed-fetch", "a head that was fetched was not merged when the failed fetch of its ancestor, the last item of the busy period, had been recorded", map[string]interface{}{"which": which, "script": append([]string{}, g.script...), "state": fmt.Sprintf("%+v", stMid)})
+			}
+			// (the case demands nothing of its own - the ancestry of the head cannot be complete yet -
+			// but the model has to compute the same log)
+			r.AddCase(g.caseTerm(nil, nil, obMid), map[string]interface{}{"kind": "c11-forced", "which": which + " (while the ancestor is still unreachable)",
+				"sig": "fetch-failure-poisons", "entries": len(g.keys), "visible": len(valsMid), "state": fmt.Sprintf("%+v", stMid), "script": append([]string{}, g.script...)}, true)
+			r.Count("c11:forced-mid-observation")
+		}
 		s.Reps[1].API.FailGet(ak, false)
 		g.emit("EFail []")
 	case "fetch-fails-many":
